@@ -3,6 +3,7 @@ package spec
 import (
 	"go/ast"
 	"go/token"
+	"go/types"
 	"strings"
 
 	"lndlint/internal/an"
@@ -16,10 +17,10 @@ import (
 func fwdPkgPositions(r *an.Run) {
 	p := r.Prog
 	r.Obl("fwdpkg-positions-are-package-indexes", "ROLE",
-		"in htlcswitch every position passed to FwdPkg.SourceRef, FwdFilter.Contains/Set and AckFilter.Contains is uint16 of the key of a range over that package's Adds, and every position passed to FwdPkg.DestRef and SettleFailFilter.Contains is uint16 of the key of a range over that package's SettleFails; when the loop runs over a filtered copy, the position is read from a companion slice that is appended to in the same block as the copy and only with uint16 of the key of the range over the package's list",
+		"in htlcswitch every position passed to FwdPkg.SourceRef, FwdFilter.Contains/Set and AckFilter.Contains is uint16 of the key of a range over that package's Adds, and every position passed to FwdPkg.DestRef and SettleFailFilter.Contains is uint16 of the key of a range over that package's SettleFails; an AddRef / SettleFailRef written out as a literal names the package's Source and Height and such a position as Index; the range keys involved are never written in the loop, and the reference returned by SourceRef/DestRef is not modified afterwards; when the loop runs over a filtered copy, the position is read from a companion slice that is appended to directly next to the append to the copy (same block, no jump in between) and only with uint16 of the key of the range over the package's list, both slices starting empty and being touched by nothing but these appends, reads of elements, len/cap and range",
 		"AddRefs, SettleFailRefs and the three filters are how acks, the forwarded set and garbage collection of a package are keyed; the position within a filtered slice names a different update as soon as an earlier one was skipped (replay of a partially acked package after a restart)", 8,
 		func(o *an.Obl) {
-			n := 0
+			n, refLits := 0, 0
 			for _, f := range p.Funcs(false, "htlcswitch") {
 				if f.Lit != nil {
 					continue
@@ -59,24 +60,270 @@ func fwdPkgPositions(r *an.Run) {
 					want := "uint16($key(" + fn.Canon(base) + "." + list + "))"
 					got := fn.Canon(call.Args[0])
 					o.Site("%s %s.%s(%s)", s.Where(), an.Text(sel.X), sel.Sel.Name, got)
-					if got == want {
-						continue
+					if got != want {
+						if why := companionIndex(fn, call.Args[0], want); why != "" {
+							o.FailAt(fn.Root().ID+"#"+sel.Sel.Name+"-position", s.Where(), "%s.%s is given %s, expected %s (the update's position in the package): %s", an.Text(sel.X), sel.Sel.Name, got, want, why)
+						}
 					}
-					if why := companionIndex(fn, call.Args[0], want); why != "" {
-						o.FailAt(fn.Root().ID+"#"+sel.Sel.Name+"-position", s.Where(), "%s.%s is given %s, expected %s (the update's position in the package): %s", an.Text(sel.X), sel.Sel.Name, got, want, why)
+					if w := c08KeyWritten(fn, call.Args[0]); w != "" {
+						o.FailAt(fn.Root().ID+"#"+sel.Sel.Name+"-key-written", s.Where(), "the position handed to %s.%s depends on a range key that is written inside the function: %s", an.Text(sel.X), sel.Sel.Name, w)
+					}
+					if list != "" && (sel.Sel.Name == "SourceRef" || sel.Sel.Name == "DestRef") {
+						if w := c08RefModified(fn, call); w != "" {
+							o.FailAt(fn.Root().ID+"#"+sel.Sel.Name+"-modified", s.Where(), "the reference returned by %s.%s is modified afterwards: %s", an.Text(sel.X), sel.Sel.Name, w)
+						}
 					}
 				}
+				// references written out as literals
+				root := f
+				for _, fn := range append([]*an.Func{f}, f.Lits...) {
+					ast.Inspect(fn.Body, func(m ast.Node) bool {
+						if _, isLit := m.(*ast.FuncLit); isLit {
+							return false // visited as its own function
+						}
+						cl, ok := m.(*ast.CompositeLit)
+						if !ok {
+							return true
+						}
+						list := ""
+						switch an.TypeID(fn.Info().TypeOf(cl)) {
+						case "chanstate.AddRef", "channeldb.AddRef":
+							list = "Adds"
+						case "chanstate.SettleFailRef", "channeldb.SettleFailRef":
+							list = "SettleFails"
+						default:
+							return true
+						}
+						refLits++
+						kv := map[string]ast.Expr{}
+						for _, el := range cl.Elts {
+							if k, ok := el.(*ast.KeyValueExpr); ok {
+								kv[an.Text(k.Key)] = k.Value
+							}
+						}
+						where := fn.Where(cl.Pos())
+						o.Site("%s %s", where, fn.Canon(cl))
+						if kv["Source"] == nil || kv["Height"] == nil || kv["Index"] == nil {
+							o.FailAt(root.ID+"#ref-literal-shape", where, "the reference literal %s does not name Source, Height and Index by key", an.Text(cl))
+							return true
+						}
+						src := fn.Canon(kv["Source"])
+						base := strings.TrimSuffix(src, ".Source")
+						if base == src {
+							o.FailAt(root.ID+"#ref-literal-source", where, "the reference literal takes its Source from %s, expected the Source of a forwarding package", src)
+							return true
+						}
+						if h := fn.Canon(kv["Height"]); h != base+".Height" {
+							o.FailAt(root.ID+"#ref-literal-height", where, "the reference literal takes its Height from %s, expected %s.Height (the package its Source names)", h, base)
+						}
+						want := "uint16($key(" + base + "." + list + "))"
+						if got := fn.Canon(kv["Index"]); got != want {
+							o.FailAt(root.ID+"#ref-literal-position", where, "the reference literal has Index %s, expected %s (the update's position in the package)", got, want)
+						}
+						if w := c08KeyWritten(fn, kv["Index"]); w != "" {
+							o.FailAt(root.ID+"#ref-literal-key-written", where, "the Index of the reference literal depends on a range key that is written inside the function: %s", w)
+						}
+						return true
+					})
+				}
 			}
+			o.Site("%d reference literals", refLits)
 			if n < 8 {
 				o.FailAt("fwdpkg-positions#sites", "", "expected at least 8 position uses, found %d", n)
 			}
 		})
 }
 
+// c08ObjOf resolves an identifier to the object it uses or defines.
+func c08ObjOf(info *types.Info, id *ast.Ident) types.Object {
+	if o := info.Uses[id]; o != nil {
+		return o
+	}
+	return info.Defs[id]
+}
+
+// c08RootIdent strips selectors, indexing, slicing, dereferences and
+// parentheses: the variable an lvalue is a part of.
+func c08RootIdent(e ast.Expr) *ast.Ident {
+	for {
+		switch x := e.(type) {
+		case *ast.ParenExpr:
+			e = x.X
+		case *ast.SelectorExpr:
+			e = x.X
+		case *ast.IndexExpr:
+			e = x.X
+		case *ast.SliceExpr:
+			e = x.X
+		case *ast.StarExpr:
+			e = x.X
+		case *ast.Ident:
+			return x
+		default:
+			return nil
+		}
+	}
+}
+
+// c08WritesOf lists the statements of the root function of f (closures included)
+// that write the variable obj or a part of it after its definition: `=`,
+// `op=`, `++`/`--`, a range clause assigning to it, and `&obj` bound to a
+// variable (an alias through which it can be written).  partial=false limits
+// the search to writes of the variable as a whole.
+func c08WritesOf(f *an.Func, obj types.Object, partial bool) []string {
+	root := f.Root()
+	info := root.Info()
+	var out []string
+	hit := func(e ast.Expr) bool {
+		if e == nil {
+			return false
+		}
+		var id *ast.Ident
+		if partial {
+			id = c08RootIdent(e)
+		} else {
+			id, _ = ast.Unparen(e).(*ast.Ident)
+		}
+		return id != nil && info.Uses[id] == obj // a definition is in Defs
+	}
+	addrOf := func(e ast.Expr) bool {
+		u, ok := ast.Unparen(e).(*ast.UnaryExpr)
+		return ok && u.Op == token.AND && hit(u.X)
+	}
+	ast.Inspect(root.Body, func(n ast.Node) bool {
+		switch x := n.(type) {
+		case *ast.AssignStmt:
+			for _, l := range x.Lhs {
+				if hit(l) {
+					out = append(out, root.Where(x.Pos())+" "+an.Text(x))
+				}
+			}
+			for _, r := range x.Rhs {
+				if addrOf(r) {
+					out = append(out, root.Where(x.Pos())+" "+an.Text(x)+" (address bound to a variable)")
+				}
+			}
+		case *ast.ValueSpec:
+			for _, r := range x.Values {
+				if addrOf(r) {
+					out = append(out, root.Where(x.Pos())+" "+an.Text(x)+" (address bound to a variable)")
+				}
+			}
+		case *ast.IncDecStmt:
+			if hit(x.X) {
+				out = append(out, root.Where(x.Pos())+" "+an.Text(x))
+			}
+		case *ast.RangeStmt:
+			if x.Tok == token.ASSIGN && (hit(x.Key) || hit(x.Value)) {
+				out = append(out, root.Where(x.Pos())+" range clause assigns it")
+			}
+		}
+		return true
+	})
+	return out
+}
+
+// c08KeyWritten: the range keys the expression depends on (directly or
+// through uniquely defined locals) are written nowhere in the function: the
+// canonical form $key(X) names the loop, not the value after `i++`.
+func c08KeyWritten(f *an.Func, e ast.Expr) string {
+	info := f.Info()
+	seen := map[types.Object]bool{}
+	why := ""
+	var visit func(e ast.Expr, depth int)
+	visit = func(e ast.Expr, depth int) {
+		ast.Inspect(e, func(n ast.Node) bool {
+			id, ok := n.(*ast.Ident)
+			if !ok {
+				return true
+			}
+			v, ok := info.Uses[id].(*types.Var)
+			if !ok || v.IsField() || seen[v] {
+				return true
+			}
+			seen[v] = true
+			if c08IsRangeKey(f, v) {
+				if w := c08WritesOf(f, v, true); len(w) > 0 && why == "" {
+					why = id.Name + " is written at " + w[0]
+				}
+				return true
+			}
+			if d := f.UniqueDef(id); d != nil && depth < 5 {
+				visit(d, depth+1)
+			}
+			return true
+		})
+	}
+	visit(e, 0)
+	return why
+}
+
+// c08IsRangeKey: v is declared as the key of a range statement of the root
+// function.
+func c08IsRangeKey(f *an.Func, v types.Object) bool {
+	root := f.Root()
+	info := root.Info()
+	found := false
+	ast.Inspect(root.Body, func(n ast.Node) bool {
+		if rs, ok := n.(*ast.RangeStmt); ok && rs.Tok == token.DEFINE {
+			if k, ok := rs.Key.(*ast.Ident); ok && info.Defs[k] == v {
+				found = true
+			}
+		}
+		return !found
+	})
+	return found
+}
+
+// c08RefModified: when the result of the SourceRef/DestRef call is bound to a
+// local, neither that local nor one of its fields is written later.
+func c08RefModified(f *an.Func, call *ast.CallExpr) string {
+	root := f.Root()
+	info := root.Info()
+	var obj types.Object
+	ast.Inspect(root.Body, func(n ast.Node) bool {
+		switch x := n.(type) {
+		case *ast.AssignStmt:
+			if len(x.Lhs) == 1 && len(x.Rhs) == 1 && ast.Unparen(x.Rhs[0]) == call {
+				if id, ok := x.Lhs[0].(*ast.Ident); ok {
+					obj = c08ObjOf(info, id)
+				}
+			}
+		case *ast.ValueSpec:
+			if len(x.Names) == 1 && len(x.Values) == 1 && ast.Unparen(x.Values[0]) == call {
+				obj = c08ObjOf(info, x.Names[0])
+			}
+		}
+		return obj == nil
+	})
+	if obj == nil {
+		return ""
+	}
+	var ws []string
+	for _, w := range c08WritesOf(f, obj, true) {
+		ws = append(ws, w)
+	}
+	// the binding itself, when it is a plain assignment to a declared variable
+	n := 0
+	for _, w := range ws {
+		if strings.Contains(w, an.Text(call)) && !strings.Contains(w, "address bound") {
+			n++
+			continue
+		}
+		return w
+	}
+	if n > 1 {
+		return "bound more than once"
+	}
+	return ""
+}
+
 // companionIndex accepts `S[k]` (possibly through one unique local
 // definition) where k is the key of a range over a local slice T, and S and T
-// are filled only by appends that sit pairwise in the same block, S receiving
-// exactly `want`.  It returns "" when the shape holds and the reason when not.
+// are filled only by appends that sit pairwise next to each other in the same
+// block, S receiving exactly `want`, and are otherwise only read (element
+// reads, len, cap, range).  It returns "" when the shape holds and the reason
+// when not.
 func companionIndex(f *an.Func, arg ast.Expr, want string) string {
 	arg = ast.Unparen(arg)
 	if id, ok := arg.(*ast.Ident); ok {
@@ -100,7 +347,7 @@ func companionIndex(f *an.Func, arg ast.Expr, want string) string {
 	info := root.Info()
 	sObj := info.Uses[sID]
 	// the ranged slice T
-	var tObj interface{}
+	var tObj types.Object
 	ast.Inspect(root.Body, func(n ast.Node) bool {
 		if rs, ok := n.(*ast.RangeStmt); ok {
 			if k, ok := rs.Key.(*ast.Ident); ok && info.Defs[k] != nil {
@@ -116,84 +363,230 @@ func companionIndex(f *an.Func, arg ast.Expr, want string) string {
 	if tObj == nil {
 		return "the range key does not run over a local slice"
 	}
-	// appends to S and T, by enclosing block
-	sBlocks := map[*ast.BlockStmt]int{}
-	tBlocks := map[*ast.BlockStmt]int{}
+	if sObj == nil || sObj == tObj {
+		return "the companion slice is not a local of its own"
+	}
+	// every occurrence of S and T, classified by its context
+	sApp := map[*ast.BlockStmt][]int{}
+	tApp := map[*ast.BlockStmt][]int{}
+	defined := map[types.Object]int{}
 	why := ""
+	fail := func(n ast.Node, msg string) {
+		if why == "" {
+			why = msg + " (" + root.Where(n.Pos()) + ")"
+		}
+	}
 	var stack []ast.Node
+	parent := func(up int) ast.Node {
+		if len(stack)-1-up < 0 {
+			return nil
+		}
+		return stack[len(stack)-1-up]
+	}
+	isBuiltin := func(c *ast.CallExpr, names ...string) bool {
+		id := an.CalleeID(info, c)
+		for _, n := range names {
+			if id == "builtin."+n {
+				return true
+			}
+		}
+		return false
+	}
+	// allowedAppend: `obj = append(obj, v)` as a statement of a block
+	appendStmt := func(as *ast.AssignStmt, obj types.Object) (*ast.CallExpr, bool) {
+		if as.Tok != token.ASSIGN || len(as.Lhs) != 1 || len(as.Rhs) != 1 {
+			return nil, false
+		}
+		l, ok := ast.Unparen(as.Lhs[0]).(*ast.Ident)
+		if !ok || c08ObjOf(info, l) != obj {
+			return nil, false
+		}
+		c, ok := ast.Unparen(as.Rhs[0]).(*ast.CallExpr)
+		if !ok || !isBuiltin(c, "append") || len(c.Args) != 2 || c.Ellipsis.IsValid() {
+			return nil, false
+		}
+		a0, ok := ast.Unparen(c.Args[0]).(*ast.Ident)
+		if !ok || c08ObjOf(info, a0) != obj {
+			return nil, false
+		}
+		return c, true
+	}
 	ast.Inspect(root.Body, func(n ast.Node) bool {
 		if n == nil {
 			stack = stack[:len(stack)-1]
 			return true
 		}
 		stack = append(stack, n)
-		as, ok := n.(*ast.AssignStmt)
-		if !ok || len(as.Lhs) != 1 || len(as.Rhs) != 1 {
-			return true
-		}
-		l, ok := as.Lhs[0].(*ast.Ident)
+		id, ok := n.(*ast.Ident)
 		if !ok {
 			return true
 		}
-		obj := info.Uses[l]
-		if obj == nil {
-			obj = info.Defs[l]
-		}
-		if obj != sObj && obj != tObj {
+		obj := c08ObjOf(info, id)
+		if obj == nil || (obj != sObj && obj != tObj) {
 			return true
 		}
-		var blk *ast.BlockStmt
-		for i := len(stack) - 2; i >= 0; i-- {
-			if b, ok := stack[i].(*ast.BlockStmt); ok {
-				blk = b
+		name := id.Name
+		// skip parentheses
+		up := 1
+		for {
+			if _, isParen := parent(up).(*ast.ParenExpr); !isParen {
 				break
 			}
+			up++
 		}
-		c, isCall := ast.Unparen(as.Rhs[0]).(*ast.CallExpr)
-		fnName := ""
-		if isCall {
-			if fi, ok := c.Fun.(*ast.Ident); ok {
-				fnName = fi.Name
+		child := parent(up - 1)
+		switch pn := parent(up).(type) {
+		case *ast.AssignStmt:
+			onLhs := false
+			for _, l := range pn.Lhs {
+				if l == child {
+					onLhs = true
+				}
 			}
-		}
-		switch {
-		case as.Tok == token.DEFINE && fnName == "make":
-			// initial empty slice
-			if len(c.Args) >= 2 && root.Canon(c.Args[1]) != "0" {
-				why = "a companion slice starts non-empty"
+			if !onLhs {
+				fail(pn, "the slice "+name+" is copied to another variable")
+				return true
 			}
-		case fnName == "append" && len(c.Args) == 2 && !c.Ellipsis.IsValid():
-			if a0, ok := c.Args[0].(*ast.Ident); !ok || info.Uses[a0] != obj {
-				why = "a companion slice is rebuilt from another slice"
+			if pn.Tok == token.DEFINE && len(pn.Lhs) == 1 && len(pn.Rhs) == 1 {
+				defined[obj]++
+				if c, ok := ast.Unparen(pn.Rhs[0]).(*ast.CallExpr); ok && isBuiltin(c, "make") && len(c.Args) >= 2 && root.Canon(c.Args[1]) == "0" {
+					return true
+				}
+				fail(pn, "the slice "+name+" does not start as an empty make(…, 0, …)")
+				return true
+			}
+			c, ok := appendStmt(pn, obj)
+			if !ok {
+				fail(pn, "the slice "+name+" is assigned other than by `"+name+" = append("+name+", x)`")
+				return true
+			}
+			blk, _ := parent(up + 1).(*ast.BlockStmt)
+			pos := -1
+			if blk != nil {
+				for i, st := range blk.List {
+					if st == ast.Stmt(pn) {
+						pos = i
+					}
+				}
+			}
+			if pos < 0 {
+				fail(pn, "the append to "+name+" is not a statement of a block")
 				return true
 			}
 			if obj == sObj {
 				if got := root.Canon(c.Args[1]); got != want {
-					why = "the companion slice receives " + got + ", expected " + want
+					fail(pn, "the companion slice receives "+got+", expected "+want)
 				}
-				sBlocks[blk]++
+				if w := c08KeyWritten(root, c.Args[1]); w != "" {
+					fail(pn, "the companion slice receives a range key that is written in the loop: "+w)
+				}
+				sApp[blk] = append(sApp[blk], pos)
 			} else {
-				tBlocks[blk]++
+				tApp[blk] = append(tApp[blk], pos)
+			}
+		case *ast.ValueSpec:
+			fail(pn, "the slice "+name+" is declared other than by := make(…, 0, …)")
+		case *ast.CallExpr:
+			if isBuiltin(pn, "len", "cap") {
+				return true
+			}
+			if isBuiltin(pn, "append") && len(pn.Args) > 0 && pn.Args[0] == child {
+				if as, ok := parent(up + 1).(*ast.AssignStmt); ok {
+					if _, ok := appendStmt(as, obj); ok {
+						return true
+					}
+				}
+			}
+			fail(pn, "the slice "+name+" is handed to "+an.Text(pn.Fun))
+		case *ast.RangeStmt:
+			if pn.X != child {
+				fail(pn, "the slice "+name+" is assigned by a range clause")
+			}
+		case *ast.IndexExpr:
+			if pn.X != child {
+				fail(pn, "the slice "+name+" is used as an index")
+				return true
+			}
+			// an element read: not the target of an assignment, ++/--, &
+			up2 := up + 1
+			for {
+				if _, isParen := parent(up2).(*ast.ParenExpr); !isParen {
+					break
+				}
+				up2++
+			}
+			elem := parent(up2 - 1)
+			switch gp := parent(up2).(type) {
+			case *ast.AssignStmt:
+				for _, l := range gp.Lhs {
+					if l == elem {
+						fail(gp, "an element of "+name+" is overwritten")
+					}
+				}
+			case *ast.IncDecStmt:
+				fail(gp, "an element of "+name+" is overwritten")
+			case *ast.UnaryExpr:
+				if gp.Op == token.AND {
+					fail(gp, "the address of an element of "+name+" is taken")
+				}
+			case *ast.RangeStmt:
+				if gp.Key == elem || gp.Value == elem {
+					fail(gp, "an element of "+name+" is assigned by a range clause")
+				}
 			}
 		default:
-			why = "a companion slice is assigned other than by make/append"
+			fail(n, "the slice "+name+" is used other than by append, element read, len, cap or range: "+an.Text(parent(up)))
 		}
 		return true
 	})
 	if why != "" {
 		return why
 	}
-	if len(sBlocks) == 0 {
+	if defined[sObj] != 1 || defined[tObj] != 1 {
+		return "a companion slice is not defined exactly once by make(…, 0, …)"
+	}
+	if len(sApp) == 0 {
 		return "the companion slice is never appended to"
 	}
-	for b, c := range sBlocks {
-		if tBlocks[b] != c {
+	for b, c := range sApp {
+		if len(tApp[b]) != len(c) {
 			return "the companion slice and the ranged slice are not appended to pairwise in the same block"
 		}
 	}
-	for b, c := range tBlocks {
-		if sBlocks[b] != c {
+	for b, c := range tApp {
+		if len(sApp[b]) != len(c) {
 			return "the companion slice and the ranged slice are not appended to pairwise in the same block"
+		}
+	}
+	// nothing between the two appends of a pair can leave the block
+	for b, sp := range sApp {
+		tp := tApp[b]
+		for i := range sp {
+			lo, hi := sp[i], tp[i]
+			if lo > hi {
+				lo, hi = hi, lo
+			}
+			for _, st := range b.List[lo+1 : hi] {
+				jump := ""
+				ast.Inspect(st, func(m ast.Node) bool {
+					switch x := m.(type) {
+					case *ast.FuncLit:
+						return false
+					case *ast.BranchStmt:
+						jump = an.Text(x)
+					case *ast.ReturnStmt:
+						jump = "return"
+					case *ast.CallExpr:
+						if an.NoReturnCall(info, x) {
+							jump = an.Text(x)
+						}
+					}
+					return jump == ""
+				})
+				if jump != "" {
+					return "between the append to the ranged slice and the append to the companion slice the block can be left (" + jump + " at " + root.Where(st.Pos()) + "): the two slices get out of step"
+				}
+			}
 		}
 	}
 	return ""
